@@ -709,6 +709,11 @@ def run(ctx, load):
         rules_c02.check_miss(P, ctx, fr)
         rules_c03.check_miss_and_counts(P, ctx)
     ctx.borrow('C12.missing-key', 6, _miss, only=lambda o: o['rule'] in ('C02.miss-raises', 'C03.miss-raises'))
+    # an unimplemented class or member raises ClassError, never a call through an empty slot (shared with C08)
+    from .rules_c08 import check_vtable_calls, WITNESS as W8
+    P8 = load(None, 'default', [W8])
+    ctx.config = 'default'
+    ctx.borrow('C12.no-unguarded-member-call', 20, lambda: check_vtable_calls(P8, ctx))
     from . import seqmodel
     seqmodel.report_list_ops(P, ctx, 'C12.refused-list-operation', 'refused', site)
     ctx.floor('C12.refused-list-operation', 6)
